@@ -47,13 +47,16 @@ SnapViol(e) ==
   LET tbl == SetOf(e.table)
       attempt == IF e.loc \in {"dial", "sess", "ping", "add"} THEN 1 ELSE 0
       settled == e.stuck = "" /\ e.loc # "run"
+      \* identity of registered vs live sessions is also judged where a bounded wait ran out (the state is then as
+      \* stable as it gets; e.g. an entry that was overwritten never produces the permit release the harness waits for)
+      located == e.loc # "run"
   IN (IF Cardinality(tbl) > n THEN {<<l, "livebound", Cardinality(tbl), n>>} ELSE {})
      \cup (IF e.stuck # "" /\ ~e.broken THEN {<<l, "progress", 0, 0>>} ELSE {})
      \cup (IF e.running /\ settled /\ e.free + attempt + Cardinality(tbl) + (removed - released) # n
            THEN {<<l, "conserve", e.free, Cardinality(tbl)>>} ELSE {})
      \cup (IF settled /\ e.canAccept # (e.free > 0) THEN {<<l, "canacc", e.free, 0>>} ELSE {})
-     \cup (IF e.running /\ settled THEN {<<l, "leak", c, 1>> : c \in {x \in SetOf(e.open) : x # e.held /\ x \notin tbl}} ELSE {})
-     \cup (IF settled THEN {<<l, "stale", c, 0>> : c \in tbl \ SetOf(e.open)} ELSE {})
+     \cup (IF e.running /\ located THEN {<<l, "leak", c, 1>> : c \in {x \in SetOf(e.open) : x # e.held /\ x \notin tbl}} ELSE {})
+     \cup (IF located THEN {<<l, "stale", c, 0>> : c \in tbl \ SetOf(e.open)} ELSE {})
 
 OnSnap(e) == FlagAll(SnapViol(e)) /\ UNCHANGED <<n, prev, removed, released>>
 OnHealed(e) ==
